@@ -475,6 +475,8 @@ impl<T: RefCnt, S: Strategy<T>> ArcSwapAny<T, S> {
         //
         // SeqCst to synchronize the time lines with the group counters.
         let old = self.ptr.swap(new, Ordering::SeqCst);
+        #[cfg(arc_swap_verif)]
+        verif_rt::probe(verif_rt::probes::PTR_SWAPPED, true);
         unsafe {
             self.strategy.wait_for_readers(old, &self.ptr);
             T::from_ptr(old)
@@ -619,6 +621,8 @@ impl<T: RefCnt, S: Strategy<T>> ArcSwapAny<T, S> {
             if swapped {
                 return Guard::into_inner(prev);
             } else {
+                #[cfg(arc_swap_verif)]
+                verif_rt::probe(verif_rt::probes::RCU_RETRY, false);
                 cur = prev;
             }
         }
@@ -793,6 +797,23 @@ impl<T> ArcSwapOption<T> {
 /// threads at once. On the other hand, it can't block writes in other instances.
 ///
 /// See the [`IndependentStrategy`] for further details.
+/// Simulation support (only with `--cfg arc_swap_verif`): observers and knobs used by the
+/// deterministic simulator in /verif. Not part of the crate's API.
+#[cfg(arc_swap_verif)]
+#[doc(hidden)]
+pub mod verif {
+    pub use crate::debt::verif_hooks::{my_node, nodes, reset, set_generation, NodeInfo, NO_DEBT};
+}
+
+#[cfg(arc_swap_verif)]
+impl<T: RefCnt, S: Strategy<T>> ArcSwapAny<T, S> {
+    /// Simulation observer: the stored pointer (modification-order latest), no side effects.
+    #[doc(hidden)]
+    pub fn verif_ptr(&self) -> *mut T::Base {
+        self.ptr.verif_peek()
+    }
+}
+
 // Being phased out. Will deprecate once we verify in production that the new strategy works fine.
 #[doc(hidden)]
 pub type IndependentArcSwap<T> = ArcSwapAny<Arc<T>, IndependentStrategy>;
